@@ -259,3 +259,79 @@ package remote
 //@ func buildReferrersURL
 //@   ensures [C20:url-shape] artifactType == "" ==> result == repoBaseURL(plainHTTP, ref) + "/referrers/" + ref.Reference
 //@   modifies alloc, elems[any], elems[string]
+//@
+//@ // ---------------------------------------------------------------- referrers capability (C14)
+//@ // 0 unknown, 1 supported, 2 unsupported; other goroutines only ever move it away from 0
+//@ atomic Repository.referrersState changes-only-from 0
+//@ func (*Repository).SetReferrersCapability
+//@   requires [wf] r != nil
+//@   ensures [C14:capability-never-flips] old(r.referrersState) != 0 ==> r.referrersState == old(r.referrersState)
+//@   ensures [C14:decided-after-the-call] r.referrersState != 0
+//@   ensures [C14:nil-means-this-capability] result == nil ==> r.referrersState == (capable ? 1 : 2)
+//@   ensures [C14:conflict-is-reported] result != nil ==> r.referrersState != (capable ? 1 : 2) && errors.Is(result, ErrReferrersCapabilityAlreadySet)
+//@   modifies Repository.referrersState@r, alloc, elems[any]
+//@ func (*Repository).loadReferrersState
+//@   requires [wf] r != nil
+//@   ensures [C14:a-decided-capability-is-what-is-read] old(r.referrersState) != 0 ==> result == old(r.referrersState)
+//@   ensures result == r.referrersState
+//@   modifies Repository.referrersState@r
+//@
+//@ // ---------------------------------------------------------------- referrers index update (C14)
+//@ // helpers whose HTTP exchanges are not followed here: anything may change except the
+//@ // update's own variables and the repository configuration
+//@ func (*manifestStore).push
+//@   trusted
+//@   modifies all, except cell[*ocispec.Descriptor], except cell[[]ocispec.Descriptor], except manifestStore.repo, except Repository.SkipReferrersGC
+//@ func (*Repository).delete
+//@   trusted
+//@   modifies all, except cell[*ocispec.Descriptor], except cell[[]ocispec.Descriptor], except manifestStore.repo, except Repository.SkipReferrersGC
+//@ func (*Repository).referrersFromIndex
+//@   trusted
+//@   modifies all, except cell[*ocispec.Descriptor], except cell[[]ocispec.Descriptor], except manifestStore.repo, except Repository.SkipReferrersGC
+//@ func generateIndex
+//@   trusted
+//@   modifies alloc, elems[byte], elems[any]
+//@
+//@ ghost local uriFound bool
+//@ func (*manifestStore).updateReferrersIndex$1
+//@   requires [wf] s != nil && s.repo != nil
+//@   entry set uriFound = false
+//@   call referrersFromIndex requires [C14:reads-the-index-of-this-subject] args.referrersTag == referrersTag
+//@   call referrersFromIndex set uriFound = result2 == nil
+//@   ensures [C14:missing-index-is-an-empty-list] !uriFound && result == nil ==> oldIndexDesc == old(oldIndexDesc) && oldReferrers == old(oldReferrers)
+//@   ensures [C14:found-index-is-remembered-for-deletion] uriFound ==> result == nil && oldIndexDesc != nil
+//@
+//@ ghost local uriChanged bool
+//@ ghost local uriNeedPush bool
+//@ ghost local uriPushed bool
+//@ ghost local uriPushFailed bool
+//@ ghost local uriDeleted bool
+//@ ghost local uriDeleteFailed bool
+//@ func (*manifestStore).updateReferrersIndex$2
+//@   requires [wf] s != nil && s.repo != nil
+//@   entry set uriChanged = false
+//@   entry set uriNeedPush = false
+//@   entry set uriPushed = false
+//@   entry set uriPushFailed = false
+//@   entry set uriDeleted = false
+//@   entry set uriDeleteFailed = false
+//@   call applyReferrerChanges requires [C14:changes-applied-to-the-fetched-list] args.referrers == oldReferrers && args.referrerChanges == referrerChanges
+//@   call applyReferrerChanges set uriChanged = result1 == nil
+//@   call applyReferrerChanges set uriNeedPush = result1 == nil && (len(result0) > 0 || s.repo.SkipReferrersGC)
+//@   call generateIndex requires [C14:index-of-the-updated-list] args.manifests == updatedReferrers
+//@   call push requires [C14:index-pushed-under-the-referrers-tag] args.reference == referrersTag && args.expected == newIndexDesc
+//@   call push set uriPushed = result == nil
+//@   call push set uriPushFailed = result != nil
+//@   call delete requires [C14:old-index-deleted-only-after-the-update-took-effect] uriChanged && (uriNeedPush ==> uriPushed) && !s.repo.SkipReferrersGC && oldIndexDesc != nil && args.isManifest
+//@   call delete set uriDeleted = result == nil
+//@   call delete set uriDeleteFailed = result != nil
+//@   ensures [C14:push-failure-surfaces] uriPushFailed ==> result != nil
+//@   ensures [C14:failed-index-delete-is-a-referrers-index-delete-error] uriDeleteFailed ==> result != nil && typeIs(result, *ReferrersError) && as(result, *ReferrersError).Op == opDeleteReferrersIndex
+//@   ensures [C14:superseded-index-deleted-unless-gc-skipped] result == nil && uriChanged && !s.repo.SkipReferrersGC && oldIndexDesc != nil ==> uriDeleted
+//@   ensures [C14:needed-index-pushed] result == nil && uriNeedPush ==> uriPushed
+//@
+//@ func (*manifestStore).updateReferrersIndex
+//@   requires [wf] s != nil && s.repo != nil
+//@   call buildReferrersTag requires [C14:tag-of-the-subject] args.desc == subject
+//@   call Get requires [C14:one-merge-object-per-referrers-tag] args.key == box(referrersTag)
+//@   call Do requires [C14:this-change-enters-the-batch] args.item == change
